@@ -33,7 +33,7 @@ CHECKS = {
              "relation). Tie: seeded histories with up to 6 open transactions and probes of all readers are run through the "
              "real client and compared step by step with the extracted model and abstract machine.",
         design="7/C02", technique="Coq refinement proof by simulation + differential correspondence run",
-        note="Hypotheses of the theorem: no write through a non-open handle (C13, finding D7), no Reopen. Snapshot lookup is the "
+        note="Hypotheses of the use-case-layer theorem: no write through a non-open handle (discharged by the client layer, C13_every_history_refines), no Reopen. Snapshot lookup is the "
              "linear-scan specification justified by C18's theorems. " + NOTE_COMMON),
     "C03": dict(
         text="Theorems (Coq): on the abstract machine, Commit fails iff the transaction is RR/SER and a key it wrote had a value "
@@ -78,7 +78,7 @@ CHECKS = {
              "quiescence (pool counters), then a walk of the storage roots (length+SHA-256 of every file) compared with the "
              "model, the abstract machine, and directly with what GetKeys/Get return.",
         design="7/C14", technique="Coq invariant proof (content liveness) + disk-walk correspondence run",
-        note="Fault-free histories without late writes (finding D7 leaks a file until restart). " + NOTE_COMMON),
+        note="Fault-free histories (a write through an ended handle is refused by the handle since the repair of D7). " + NOTE_COMMON),
     "C15": dict(
         text="PARTIAL. Theorems (Coq): under readers-writer lock semantics no writer ever shares a lock with another thread in any "
              "reachable state (C15_mutual_exclusion, induction over acquire/release traces of any length, any number of threads and "
@@ -168,14 +168,19 @@ CHECKS = {
              "only successful contents are compared (unmapped stream errors are D6, under C11). " + NOTE_COMMON),
     "C13": dict(
         text="Theorems (Coq): the abstract machine rejects every operation through a non-open handle with ErrTxNotFound "
-             "(Rollback: no-op) and changes nothing; ended handles are not open; the model agrees on every history without a "
-             "late WRITE (C13_late_reads_commit_rollback_partial). The full statement is REFUTED for the faithful model "
-             "(C13_late_write_refuted: a Set through a committed transaction succeeds and a ReadUncommitted reader sees it) — "
-             "genuine defect D7, recorded in known_findings.json and reproduced on the real code on every run. Tie: histories "
-             "with operations through ended handles at all levels with observers; late-write histories are compared with the "
-             "model of the finding step by step so any other deviation is still reported.",
-        design="7/C13", technique="Coq proof (spec-level + refinement) with a machine-checked refutation witness + differential correspondence run",
-        note="Claimed with a known finding (D7). Unknown ids are only reachable over gRPC. " + NOTE_COMMON),
+             "(Rollback: no-op) and changes nothing, whatever the key (C13_late_ops_fail_and_change_nothing); ended handles are "
+             "not open (C13_ended_is_not_open); each Begin is fresh. With the client layer (Client.v: the handle returned by "
+             "Begin remembers that it ended and refuses writes itself; reads and Commit are refused by the registry) EVERY "
+             "sequential history whatsoever - operations through open, ended or never issued handles at all four levels, "
+             "collections, drains, Close/Open anywhere - behaves as the abstract machine: C13_every_history_refines, no "
+             "hypothesis. The full statement was false of the code before its repair (C13_late_write_refuted_orig: at the "
+             "use-case layer a Set through a committed transaction succeeds and a ReadUncommitted reader sees it) - genuine "
+             "defect D7, repaired by a fix: commit in the root package's transaction handle. Tie: histories with operations "
+             "through ended handles at all levels with observers, through both clients, compared with the extracted "
+             "client-layer model and the abstract machine; a sample re-evaluated by vm_compute.",
+        design="7/C13", technique="Coq proof (refinement for every history, refutation witness for the original code) + differential correspondence run",
+        note="The server's use cases still accept a write that names an unknown transaction id (only reachable with a hand-made "
+             "gRPC request, not through either client): outside what the clients can express, stated in DESIGN 0.6. " + NOTE_COMMON),
     "C16": dict(
         text="Theorems (Coq, for ALL numbers of workers, ALL sender programs of ANY number of sender threads and ALL schedules, over a "
              "transition system of internal/utils/wpool with one step per stretch of code between two pause points: senders, "
